@@ -43,6 +43,11 @@ BudgetZeroUntouchedInv == BudgetZeroUntouched(m) /\ BudgetZeroUntouched(s)
 ExactStartInv == ExactStart(m) /\ ExactStart(s)
 BoundedInv == Bounded(m) /\ Bounded(s)
 PrefixClosed == PrefixRel(s, m) /\ (Terminal(m) => Terminal(s))
+\* the budget ladder read off the two copies: if the run with budget B answers Ok(k), the run with budget j answers Ok(k) with the
+\* same x when j >= k and Err when j < k
+BudgetLadder == (Terminal(m) /\ m.phase = "ok") =>
+                  /\ (s.budget >= m.ret => s.phase = "ok" /\ s.ret = m.ret /\ s.xv = m.xv)
+                  /\ (s.budget < m.ret => s.phase = "err" /\ s.why = "exhaust")
 Variant == [][Measure(m') < Measure(m) /\ (m'.it = m.it \/ m'.it = m.it + 1)]_vars
 Termination == IF Mode = "proto" THEN <>Terminal(m) ELSE <>(g.done)
 \* every named outcome is reachable (vacuity guard, checked by expecting these "invariants" to fail is not needed:
